@@ -9,11 +9,12 @@ func allProps() []PropSpec {
 				{Func: "ZZ_C01_H2", Pkg: "pkg/protocol/http1", Quick: map[string]int{"D": 2, "V": 3, "FRAG": 1}, Thorough: map[string]int{"D": 3, "V": 4, "FRAG": 2}, Covers: []string{"valid-reached", "invalid-reached"}},
 				{Func: "ZZ_C01_H3", Pkg: "pkg/protocol/http1", Quick: map[string]int{"C": 2, "S": 2, "SL": 2, "FRAG": 1}, Thorough: map[string]int{"C": 3, "S": 3, "SL": 2, "FRAG": 2}, Covers: []string{"reached-assert", "two-chunks"}},
 				{Func: "ZZ_C01_H4", Pkg: "pkg/protocol/http1", Quick: map[string]int{"K": 3, "FRAG": 3}, Thorough: map[string]int{"K": 4, "FRAG": 4}, Covers: []string{"reached-assert", "two-requests"}},
+				{Func: "ZZ_C01_MP", Pkg: "pkg/protocol/http1", Covers: []string{"reached-assert"}, Unwind: 40000, MaxSteps: 8000000, Note: "multipart/form-data with the default form pre-parsing (the real mime/multipart.Reader runs from SSA): epilogue lengths around the parser's read-ahead, pipelined sentinel"},
 				{Func: "ZZ_C01_BIG", Pkg: "pkg/protocol/http1", Covers: []string{"reached-assert"}, Unwind: 40000, MaxSteps: 8000000, Note: "body lengths 4095..4097 and 8191..8193, fixed and chunked, four fragmentations"},
 				{Func: "ZZ_C14_H1", Pkg: "pkg/protocol/http1", Quick: map[string]int{"L": 4, "C": 2, "S": 3, "R": 2, "C01": 1}, Thorough: map[string]int{"L": 6, "C": 2, "S": 6, "R": 3, "C01": 1}, Covers: []string{"reached-assert"}, MaxSteps: 4000000, Note: "streaming mode: shared with C14 (its pipelined-request-still-handled assertion is a C01 clause)"},
 				{Func: "ZZ_C14_H4", Pkg: "pkg/protocol/http1", Quick: map[string]int{"L": 3, "C": 2, "S": 3, "R": 2, "C01": 1}, Thorough: map[string]int{"L": 4, "C": 2, "S": 3, "R": 3, "C01": 1}, Covers: []string{"reached-assert", "sentinel-handled"}, MaxSteps: 4000000, Note: "streaming mode, two-fragment delivery with the cut at every position of the body: shared with C14"},
 			},
-			Assumptions: []string{"transport: the real standard.Conn over a harness net.Conn; netpoll is outside", "bodies are a few bytes; buffer-boundary sizes (4 KiB/8 KiB) are C13/C14's subject", "Content-Length spellings valid only with HTAB as OWS are in neither obligation (refusing them is safe)", "multipart pre-parsing disabled"},
+			Assumptions: []string{"transport: the real standard.Conn over a harness net.Conn; netpoll is outside", "bodies are a few bytes; buffer-boundary sizes (4 KiB/8 KiB) are C13/C14's subject", "Content-Length spellings valid only with HTAB as OWS are in neither obligation (refusing them is safe)", "multipart pre-parsing disabled except in ZZ_C01_MP (one small form, epilogue lengths 0..9000)"},
 		},
 		{
 			ID: "C02",
@@ -55,6 +56,7 @@ func allProps() []PropSpec {
 				{Func: "ZZ_C03_ParseUint", Pkg: "pkg/protocol", Quick: map[string]int{"N": 6}, Thorough: map[string]int{"N": 10}, Covers: []string{"reached-end", "parsed"}},
 				{Func: "ZZ_C03_HexInt", Pkg: "pkg/protocol/http1", Quick: map[string]int{"L": 17}, Thorough: map[string]int{"L": 20}, Covers: []string{"reached-assert", "parsed"}},
 				{Func: "ZZ_C03_CLI", Pkg: "pkg/protocol/http1/resp", Quick: map[string]int{"W": 1}, Thorough: map[string]int{"W": 2}, Covers: []string{"reached-end", "accepted", "rejected"}, Note: "client response read path: one (two) symbolic bytes at every position of six response shapes"},
+				{Func: "ZZ_C03_MP", Pkg: "pkg/protocol/http1", Covers: []string{"reached-assert", "over-limit", "corrupted-form-refused"}, Unwind: 40000, MaxSteps: 8000000, Note: "multipart/form-data with the default form pre-parsing (real mime/multipart.Reader from SSA): declared length above the limit, or one symbolic ASCII byte at every position of the form"},
 				{Func: "ZZ_C03_SRV", Pkg: "pkg/protocol/http1", Quick: map[string]int{"W": 1}, Thorough: map[string]int{"W": 2, "ENUMCAP": 300}, Covers: []string{"reached-assert", "rejected", "accepted-both"}},
 			},
 			Assumptions: []string{"time.Parse/ParseInLocation is an opaque stub that succeeds or fails nondeterministically", "inputs longer than the stated bounds are outside the claim"},
@@ -200,8 +202,11 @@ func allProps() []PropSpec {
 				{Func: "ZZ_C10_H4", Pkg: "pkg/protocol/http1", Covers: []string{"reached-assert", "first-call-timed-out", "first-call-ok"}, Unwind: 5000,
 					GoPolicy: map[string]string{"(*github.com/cloudwego/hertz/pkg/protocol/http1.HostClient).connsCleaner": "skip"},
 					Note: "request timeout budget used up before the write or between write and read (slow peer writes: zz.SlowFor advances the modelled clock and sleeps natively): the unfinished connection is not reused"},
+				{Func: "ZZ_C10_H5", Pkg: "pkg/protocol/http1", Covers: []string{"reached-assert", "retried-on-a-fresh-connection", "timed-out"}, Unwind: 5000,
+					GoPolicy: map[string]string{"(*github.com/cloudwego/hertz/pkg/protocol/http1.HostClient).connsCleaner": "skip"},
+					Note: "request timeout across a transparently retried attempt: returns within budget + one operation on the modelled clock (slow peer operations advance it; the native replay sleeps)"},
 			},
-			Assumptions: []string{"sequential histories only: M calls one after another against a scripted peer; all goroutine interleavings, the waiter queue under contention, real timeouts and 'returns no later than' clauses are outside this technique", "fault alphabet per exchange: ok keep-alive, ok + Connection: close, close before first byte, close mid-header, close mid-body, dial error, write error, context already cancelled; MaxConns 1..2; MaxConnWaitTimeout = 0; MaxConnDuration 0 or expired"},
+			Assumptions: []string{"sequential histories only: M calls one after another against a scripted peer; goroutine interleavings and the waiter queue under contention are outside this technique; time is a modelled clock that advances by a fixed step per reading and by the stated amount when the scripted peer is slow (transport deadlines are not modelled, so 'returns no later than' is checked up to one operation in flight)", "fault alphabet per exchange: ok keep-alive, ok + Connection: close, close before first byte, close mid-header, close mid-body, dial error, write error, context already cancelled; MaxConns 1..2; MaxConnWaitTimeout = 0; MaxConnDuration 0 or expired"},
 		},
 	}
 }
